@@ -1,4 +1,5 @@
 import Faithful.Lib.GsfaIndex
+import Faithful.Generated.Gsfa
 /-!
 # Property C06 — the address index returns every indexed transaction of an address, newest first
 
@@ -87,6 +88,41 @@ theorem gsfa_roundtrip_bounded_rank (Z : Zstd) (hZ : Z.Lawful) (p : Params) (ps 
   have hpc : pushCount evs = pairCount ps := by
     rw [← pushCount_filter_client, hsched, pushCount_calls]
   exact gsfa_roundtrip Z hZ p ps evs hsched (noEvict_of_bound p evs (by rw [hpc]; exact hbound)) idx hidx hrec a limit hl
+
+/-! ## ties to the source tree (regenerated by /verif/harness/extract/c06_gsfa.go on every run) -/
+
+/-- the seven threshold literals of `gsfa-write.go` are where the translator expects them -/
+theorem gen_thresholds_recognised :
+    (Generated.gsfaItemsPerBatch.isSome && Generated.gsfaParkLimit.isSome && Generated.gsfaChanCap.isSome &&
+     Generated.gsfaPeriodicKeys.isSome && Generated.gsfaPeriodicSlot.isSome && Generated.gsfaPeriodicValues.isSome &&
+     Generated.gsfaRankListSize.isSome) = true := by decide
+
+/-- the writer in the tree has the three repairs the model describes: `tmpBuf` starts empty, the goroutine
+    writes what it parked before it signals completion, `Close` waits for it before flushing the accumulator -/
+theorem gen_writer_is_repaired :
+    Generated.gsfaTmpBufStartsEmpty = some true ∧ Generated.gsfaDrainsParkedOnExit = some true ∧
+    Generated.gsfaCloseWaitsBeforeFlush = some true := by decide
+
+/-- the thresholds of the tree -/
+def realParams : Params :=
+  { B := Generated.gsfaItemsPerBatch.getD 0, P := Generated.gsfaParkLimit.getD 0, K := Generated.gsfaPeriodicKeys.getD 0,
+    M := Generated.gsfaPeriodicSlot.getD 0, T := Generated.gsfaPeriodicValues.getD 0, R := Generated.gsfaRankListSize.getD 0 }
+
+theorem bound_closed_form (B R n : Nat) (h : 2 * n < B * ((R + 1) * (R + 2))) : n < B * tri (R + 1) := by
+  have h2 : 2 * (B * tri (R + 1)) = B * ((R + 1) * (R + 1 + 1)) := by
+    rw [← two_tri (R + 1), Nat.mul_left_comm]
+  omega
+
+/-- **C06 at the thresholds of the tree**, the rank bound in closed form
+    (`2 · pairs < itemsPerBatch · (R+1)(R+2)`, i.e. pairs < 50 015 001 000 for 1000 / 10 000) -/
+theorem gsfa_roundtrip_real_thresholds (Z : Zstd) (hZ : Z.Lawful) (ps : List PushCall) (evs : List Ev)
+    (hsched : evs.filter Ev.isClient = ps.flatMap clientEvents)
+    (hbound : 2 * pairCount ps < realParams.B * ((realParams.R + 1) * (realParams.R + 2)))
+    (idx : LogSt H) (hidx : index A Rk H Z realParams evs = .ok idx) (hrec : ∀ r ∈ idx.rrecs, r.length < 2 ^ 32)
+    (a : Addr) (limit : Nat) (hl : 0 < limit) :
+    readerGet Z idx a limit =
+      if pushesOf a ps = [] then .error (.err "notfound") else .ok ((pushesOf a ps).reverse.take limit) :=
+  gsfa_roundtrip_bounded_rank Z hZ realParams ps evs hsched (bound_closed_form _ _ _ hbound) idx hidx hrec a limit hl
 
 /-! ## concrete instances: non-vacuity, and the counter-example beyond the rank bound -/
 
